@@ -30,6 +30,8 @@ import (
 	"github.com/nuts-foundation/go-did/did"
 	"github.com/nuts-foundation/go-did/vc"
 	nutsCrypto "github.com/nuts-foundation/nuts-node/crypto"
+	"github.com/nuts-foundation/nuts-node/crypto/hash"
+	"github.com/nuts-foundation/nuts-node/network/dag"
 	"github.com/nuts-foundation/nuts-node/vcr/credential"
 	"github.com/nuts-foundation/nuts-node/vdr/didjwk"
 	"github.com/nuts-foundation/nuts-node/vdr/didkey"
@@ -285,7 +287,23 @@ func TestVerifC19(t *testing.T) {
 		}
 		o.emit(op, c19Class(res))
 	}
-	eps := map[string]func(string) string{"didweb.Resolve": web, "didkey.Resolve": key, "didjwk.Resolve": jwkR, "crypto.ParseJWT": parseJWT, "credential.vp": vpPath, "credential.vc": vcPath}
+	// network/dag/parser.go (the parser MODEL belongs to C06; here only the crash/timeout oracle on header mutants)
+	parseTx := func(in string) string {
+		tx, err := dag.ParseTransaction([]byte(in))
+		if err != nil {
+			return "err"
+		}
+		tx.Ref()
+		tx.PAL()
+		tx.Previous()
+		tx.Clock()
+		tx.SigningTime()
+		tx.PayloadType()
+		tx.SigningKey()
+		tx.SigningKeyID()
+		return "ok"
+	}
+	eps := map[string]func(string) string{"dag.ParseTransaction": parseTx, "didweb.Resolve": web, "didkey.Resolve": key, "didjwk.Resolve": jwkR, "crypto.ParseJWT": parseJWT, "credential.vp": vpPath, "credential.vc": vcPath}
 
 	replay, isReplay := c19ReadOps()
 	for _, op := range replay {
@@ -309,6 +327,25 @@ func TestVerifC19(t *testing.T) {
 		o.explore(ep, in, func() string { return fn(in) })
 		if ep == "didkey.Resolve" {
 			didKeyOp(in)
+		}
+	}
+
+	// ---- dag transactions: mutated protected header under the original payload/signature (the parser does not verify signatures)
+	{
+		validTx, _, _ := dag.CreateTestTransactionEx(1, hash.SHA256Sum([]byte("payload")), [][]byte{{1, 2, 3}})
+		parts := strings.Split(string(validTx.Data()), ".")
+		hdrB, _ := base64.RawURLEncoding.DecodeString(parts[0])
+		mkTx := func(h []byte) string { return base64.RawURLEncoding.EncodeToString(h) + "." + parts[1] + "." + parts[2] }
+		if parseTx(mkTx(hdrB)) != "ok" {
+			t.Fatal("valid transaction is not accepted")
+		}
+		jsystematic(hdrB, func(b []byte, kind string) { run("dag.ParseTransaction", mkTx(b), kind) })
+		for i := 0; i < n; i++ {
+			b, kind := m.mutate(hdrB)
+			run("dag.ParseTransaction", mkTx(b), "rand:"+kind)
+		}
+		for _, sIn := range []string{"", ".", "..", parts[0], parts[0] + "." + parts[1], parts[0] + ".." + parts[2], "{}", "[]", mkTx([]byte("null")), mkTx([]byte("[]")), mkTx([]byte("{}")), mkTx(hdrB) + ".x"} {
+			run("dag.ParseTransaction", sIn, "serialisation")
 		}
 	}
 
